@@ -10,7 +10,7 @@ CONSTANTS
   EntModes = {"first"}
   EpChoices = {0}
   CfgModes = {"full"}
-  AddrModes = {TRUE, FALSE}
+  AddrModes = {TRUE}
   TgtChoices = {0}
   ScopeKinds = {"allblocks", "allfuncs", "single"}
   Positions = {"ENTRY", "EXIT", "ANYWHERE"}
